@@ -36,14 +36,15 @@ type freeParams struct {
 	pass    bool   // one-to-one nodes return their in packet (pass-through) instead of a new one
 	same    bool   // the fork returns [in, in] instead of two new packets
 	gosched bool   // sinks yield before answering
+	jpass   bool   // diamond: the join hands on the packet object of in[1] instead of a new packet
 	procs   int
 	window  int
 	total   int
 }
 
 func (p freeParams) String() string {
-	return fmt.Sprintf("free shape=%s pass=%v fork-same=%v sink-gosched=%v processes=%d window=%d requests=%d",
-		p.shape, p.pass, p.same, p.gosched, p.procs, p.window, p.total)
+	return fmt.Sprintf("free shape=%s pass=%v fork-same=%v join-hands-on-in1=%v sink-gosched=%v processes=%d window=%d requests=%d",
+		p.shape, p.pass, p.same, p.jpass, p.gosched, p.procs, p.window, p.total)
 }
 
 func str(p *packet.Packet) string { return fmt.Sprint(p.Payload().Interface()) }
@@ -152,6 +153,11 @@ func buildFree(p freeParams) *freeFlow {
 		f.src.Link(fk.In(node.PortIn))
 		o1, o2 := one("/1"), one("/2")
 		j := node.NewManyToOneNode(func(_ *process.Process, ins []*packet.Packet) (*packet.Packet, *packet.Packet) {
+			if p.jpass {
+				// one of the action's own in packets: the one that completed the group whenever in[1]
+				// arrives last (seeded change c02m: that packet was no longer copied and linked to itself)
+				return ins[1], nil
+			}
 			return newStr("J(" + str(ins[0]) + "," + str(ins[1]) + ")"), nil
 		})
 		f.nodes = append(f.nodes, j)
@@ -163,6 +169,9 @@ func buildFree(p freeParams) *freeFlow {
 		f.expect = func(x string) []string {
 			a, b := tr(fa(x), "/1"), tr(fb(x), "/2")
 			ans := "A0(J(" + a + "," + b + "))"
+			if p.jpass {
+				ans = "A0(" + b + ")"
+			}
 			// the member of the group that arrives first is answered with itself, the one that completes
 			// the group with the sink's answer: which of the two branches that is, is a real race
 			return []string{"[" + a + " " + ans + "]", "[" + ans + " " + b + "]"}
@@ -428,6 +437,7 @@ func runFree(c *lib.Ctx, r *lib.RNG) []lib.OracleFail {
 			window:  []int{2, 5, 16}[r.Intn(3)],
 			total:   r.Range(2000, 6000),
 		}
+		p.jpass = p.shape == "diamond" && (i/len(shapes))%2 == 1
 		if r.Chance(1, 8) {
 			p.total = r.Range(6000, 20000)
 		}
@@ -436,6 +446,9 @@ func runFree(c *lib.Ctx, r *lib.RNG) []lib.OracleFail {
 			p.total /= p.procs
 		}
 		c.Hit("free-round-" + p.shape)
+		if p.jpass {
+			c.Hit("free-join-hands-on-its-in-packet")
+		}
 		c.Hit(fmt.Sprintf("free-window-%d", p.window))
 		if p.procs > 1 {
 			c.Hit("free-several-processes")
